@@ -406,10 +406,14 @@ func (ctrl *Controller[Input, Output]) cleanupOutputs(
 	outputMetadata resource.Metadata,
 ) error {
 	// clean up outputs
-	outputItems, err := safe.ReaderList[Output](ctx, r, outputMetadata)
+	// outputs are written by this controller in the same cycle: they should be listed from the state itself, as the
+	// cache (if the output kind is cached) might not have caught up with these writes yet
+	outputList, err := r.ListUncached(ctx, outputMetadata)
 	if err != nil {
 		return fmt.Errorf("error listing output resources: %w", err)
 	}
+
+	outputItems := safe.NewList[Output](outputList)
 
 	for out := range outputItems.All() {
 		// output not owned by this controller, skip it
